@@ -56,4 +56,23 @@ SplitRules(s) ==
                  IF s[i] \in {59, 58} THEN Append(acc, <<>>)                       \* ';' = 59, ':' = 58
                  ELSE [acc EXCEPT ![Len(acc)] = Append(@, s[i])]
     IN  F[Len(s)]
+---------------------------------------------------------------------------
+\* FileSink (sinks/filesink.cpp, replaceTimePattern): a "%{time <format>}" in the path is replaced by the current date
+\* and time in that Qt format ("yyyyMMdd_hhmmss" when the format is empty) - the LAST such pattern of the path, and only
+\* that one; its format runs up to the first '}' and blanks after "time" do not belong to it.
+TIMEKEY == <<37, 123, 116, 105, 109, 101>>                          \* %{time
+Starts(s, i, pat) == i + Len(pat) - 1 <= Len(s) /\ SubSeq(s, i, i + Len(pat) - 1) = pat
+KeyPositions(s) == {i \in 1..Len(s) : Starts(s, i, TIMEKEY) /\ \E j \in (i + Len(TIMEKEY))..Len(s) : s[j] = 125}
+Max(S) == CHOOSE x \in S : \A y \in S : y <= x
+Min(S) == CHOOSE x \in S : \A y \in S : x <= y
+HasTimePattern(s) == KeyPositions(s) # {}
+KeyAt(s) == Max(KeyPositions(s))
+CloseAt(s) == Min({j \in (KeyAt(s) + Len(TIMEKEY))..Len(s) : s[j] = 125})
+RECURSIVE SkipBlanks(_, _)
+SkipBlanks(s, i) == IF i <= Len(s) /\ s[i] = 32 THEN SkipBlanks(s, i + 1) ELSE i
+TimeFormatOf(s) == LET a == SkipBlanks(s, KeyAt(s) + Len(TIMEKEY)) IN
+                   IF a > CloseAt(s) - 1 THEN <<>> ELSE SubSeq(s, a, CloseAt(s) - 1)
+ExpandTime(s, rendered) ==
+    IF ~HasTimePattern(s) THEN s
+    ELSE SubSeq(s, 1, KeyAt(s) - 1) \o rendered \o SubSeq(s, CloseAt(s) + 1, Len(s))
 =============================================================================
